@@ -44,6 +44,7 @@ structure Quirks where
   d6 : Bool := false  -- sync apply_reads moves last_accessed backwards
   d7 : Bool := false  -- sync maintenance addresses map entries by key only
   d8 : Bool := false  -- sync weight drift (policy_weight written at insert time)
+  d10 : Bool := false -- sync: queued op's own weight accounted instead of the current value's
   deriving Repr, Inhabited, DecidableEq
 
 /-! ## Association lists keyed by `Nat` -/
